@@ -59,15 +59,20 @@ CLAIMED = {
             "and compared with the FAB whose header names the box's range.",
             "NoStrayHeader: payloads that spell a FAB header are not generated; instances with several candidate headers are counted, not judged."),
     "C05": ("Lean 4 theorem on the record-level colander model + differential correspondence check",
-            "Proof: C05.kept_fields_rule (which fields are written, in which order: Names.select, compared with every real output), Writers.colander_data (for any distribution and order of boxes in the input files, entry i of the output level header "
+            "Proof: C05.kept_fields_rule (which fields are written, in which order: Names.select, compared with every real output) and C05.kept_positions (the reported source positions hold those very names), Writers.colander_data (for any distribution and order of boxes in the input files, entry i of the output level header "
             "points at a record that is box i and holds exactly the kept components, any payload type) with recAt_tells/scatter_get (offset "
-            "re-mapping); outputs are parsed by the oracle, tasted, compared bit for bit with the input and offset for offset with the model.",
-            "Header text rewriting (names, min/max rows) is checked by the oracle on the real output only."),
+            "re-mapping); C05.output_header_keeps_mesh / output_header_read_back (the global Header colander writes, as the executable writer model Header.rewriteOf applied to the reader model's parse of the input Header under the limit, "
+            "has levels 0..limit and is read back as the new field table plus the input's time, domain bounds, cell sizes, grid sizes, steps and physical boxes cut after the limit); C05.level_header_rows_restricted (the line rewriter of update_cell_header keeps index ranges "
+            "and file names, replaces the field count and offsets, and cuts EVERY min/max row down to the kept columns in the kept order - any number of boxes, fields, any selection); both writer models are compared byte for byte with every Header / Cell_H colander writes; "
+            "outputs are parsed by the oracle, tasted, compared bit for bit with the input and offset for offset with the model, through the API and the console script.",
+            "Python's str(float(token)) is a parameter of the header writer model (supplied per token by the harness; the mesh theorem is stated for tokens already in shortest form, which holds for every generated input and is counted)."),
     "C06": ("Lean 4 theorem on the record-level combine model + differential correspondence check",
             "Proof: C06.field_rule / field_names_distinct (which fields are written: the first input's selection first and unchanged, then the second's not already taken, no name twice - Names.combine, compared with the field list and "
             "source positions of every real output), Writers.combine_data / assemble_data (both pairing modes: each output record is the concatenation of the selected "
             "components of the two source boxes with the same index, for independent layouts); outputs compared bit for bit with both "
-            "inputs and offset for offset with the model; mismatched meshes must be refused before anything is written.",
+            "inputs and offset for offset with the model; C06.level_header_rows_assembled (every min/max row of the output level header is the picked columns of the first input's row followed by the picked columns of the second input's row for the same box; "
+            "executable line rewriter CellHRewrite.combineLines) and C06.output_header_keeps_mesh / output_header_read_back (the global Header derives from the first input's by the writer model), both compared byte for byte with every written file; "
+            "mismatched meshes must be refused before anything is written (API and console script with its exit status).",
             "The mesh comparison (__eq__) uses numpy allclose on physical bounds: outside the model, exercised on the real code."),
     "C07": ("Lean 4 theorems on the one-pixel column model (exact rationals) + per-pixel correspondence check",
             "Proof: Column.slice_initialised (for every position in the closed domain both samples of a pixel are written before the "
@@ -79,8 +84,10 @@ CLAIMED = {
     "C08": ("Lean 4 theorems on the concrete covering-grid model + bit-for-bit correspondence check",
             "Proof: Grid.modelVal_eq_specVal (the repeat/reshape + slice-assign arithmetic puts at each fine cell the stored value of the "
             "coarse cell containing it), Grid.coverAt_last and Cover.cover_finest (after level-ordered overwrites every pixel holds the "
-            "finest covering box's value), Cover.region_iff, repeat_reshape_index; outputs compared bit for bit with the oracle and the model.",
-            "numpy repeat/reshape/slice assignment are modelled by their index arithmetic."),
+            "finest covering box's value), Cover.region_iff, repeat_reshape_index; C08.requested_fields / all_fields / unknown_field_refused (which components are read and under which names they are "
+            "returned, the grid_level pseudo field and 'all': Names.mandolineIdx, compared with the keys of every real result); C08.coordinates_are_cell_centres (np.linspace(lo+dx/2, hi-dx/2, n) is the list of cell centres, "
+            "over Rat; Coords.axis compared with every returned x / y array); outputs compared bit for bit with the oracle and the model, through the API and the console script.",
+            "numpy repeat/reshape/slice assignment are modelled by their index arithmetic; coordinates are compared up to floating-point rounding (1e-12 of the domain size)."),
     "C10": ("Lean 4 theorems on the covering-grid model and commuting disjoint writes + completion-order exploration",
             "Proof: Grid.coverAt_last / Cover.cover_finest (covering grid), C10.any_arrival_order (any permutation of pairwise-disjoint region writes gives the same array) "
             "and the regenerated obligation that imap_unordered is only used in whip; Probe.write_comm (writes to disjoint regions commute, so the "
@@ -88,22 +95,24 @@ CLAIMED = {
             "every completion order (<= 4 files) and compared cell for cell with the oracle and the model for both dtypes and limits.",
             "numpy dtype casts are compared on the real output only."),
     "C09": ("Lean 4 theorem on pestle's covering masks (3-D) + exact rational correspondence check",
-            "Proof: C09.integral_eq_sum_over_uncovered (for any number of levels and any mix of box sizes aligned to the resolution, the model's integral IS the sum over "
+            "Proof: C09.as_called (volume_integral as called - all components of every box, the field looked up by name, volFrac used iff requested and present, levels cut at the limit, the workers' "
+            "sum(data[mask]*vf[mask]): the result is the sum over the uncovered cells of levels 0..limit of value x cell volume x volume fraction; limit_levels, unknown_field_is_an_error, weighted_sum), on top of C09.integral_eq_sum_over_uncovered (for any number of levels and any mix of box sizes aligned to the resolution, the model's integral IS the sum over "
             "the cells not covered by a finer selected level of value x cell volume), from Pestle.mask_correct (for every even occupancy resolution to which all box faces are aligned the mask is defined and marks "
             "exactly the cells no finer box covers, three dimensions) with aligned_lo_iff/aligned_hi_iff/mask_extent/factor_eq/maskEntry_eq; "
             "the integral is compared with the exact rational sum over uncovered cells (oracle) and with the Lean model's integral and "
             "specification on mixed-size, partially refined, anisotropic meshes for every limit and volfrac setting.",
-            "Floating-point summation compared at rtol 1e-9 (the theorem is over Rat); volfrac is a pointwise product applied before the sum."),
+            "Floating-point summation compared at rtol 1e-9 (the theorem is over Rat). The console script's forwarding of its options is compared on the real code (printed value) only."),
     "C11": ("Lean 4 theorem on the record-level chef model + differential correspondence check with independent recipe evaluation",
             "Proof: C11.field_rule (kept-that-exist then the recipe's names, compared as a set with every real output), Writers.chef_data (entry i of chef's level header points at a record that is box i = kept components then the recipe's, for "
             "any input layout; disk-order visiting via assemble_data_ord / goodOrder_offset); outputs parsed by the oracle, tasted, every "
             "component compared under its own name with the recipe evaluated independently (Cantera per cell for the built-ins), kept fields "
-            "bit for bit, min/max rows with the written extrema, layout offset for offset with the model; serial and pool modes.",
+            "bit for bit, min/max rows with the written extrema, layout offset for offset with the model; C11.output_header_keeps_mesh / output_header_read_back (the global Header chef writes derives from the input's by the writer model Header.rewriteOf, "
+            "compared byte for byte, and is read back as the input's mesh metadata); serial and pool modes.",
             "The recipe is a parameter of the theorem; Cantera and numpy min/max are exercised on the real code only."),
     "C17": ("Lean 4 theorem on the record-level chk2plt model + differential correspondence check on synthetic checkpoints",
             "Proof: Writers.chk_data (each output record is box i's interior state components followed by that box's own gradp and I_R "
             "components, for independent layouts of every data subset), the regenerated state-vector tables (state_layout, "
-            "output_names_match_state_order); outputs parsed by the oracle, tasted with box coordinates, compared with the checkpoint's "
+            "output_names_match_state_order), C17.field_names_align / field_count (the field list - state, then gradient, then rates - lines up group by group with the components of chk_data's record; Names.chkFields compared with every written Header); outputs (API and console script, species from a list or a reference plotfile) parsed by the oracle, tasted with box coordinates, compared with the checkpoint's "
             "interior values, and the checkpoint tree is hashed before and after.",
             "Ghost stripping and flooring are numpy slicing/division, compared on the real output; one known finding (integral time values)."),
     "C18": ("Lean 4 theorem on the two-column table layout + stdout round-trip correspondence check",
@@ -122,7 +131,7 @@ CLAIMED = {
             "with the stored values and with the Lean matching model (single-box case, box, local index).",
             "scipy map_coordinates at integer indices is a parameter; only CASE 1 (single box) is in the property and the model."),
     "C16": ("Lean 4 theorems on chunk arithmetic and the column model (truncated levels) + per-cell correspondence check",
-            "Proof: C16.every_box_written_once (for all n and nfiles the chunks concatenate to all n boxes, in order), Chunks.chunks_le (the repaired chunk size never needs more files than names), Column.slice_initialised / slice_affine applied "
+            "Proof: C16.each_box_once / shared_face_upper (through every in-plane cell, for boxes stacked face to face along the normal and every plane position in the closed domain - inside a box, on a shared face, on a domain face - the selection test of write_cell_data_at_level lists exactly one box; the executable test Meets.meets is compared with the boxes every written slice lists), C16.every_box_written_once (for all n and nfiles the chunks concatenate to all n boxes, in order), Chunks.chunks_le (the repaired chunk size never needs more files than names), Column.slice_initialised / slice_affine applied "
             "to the configuration truncated to levels 0..l (the data written for level l), the regenerated FAB header literal "
             "(mandolineHeader_eq_utilsHeader, without which taste rejects the slice) and threshold; every cell of every written box is compared "
             "with the Python specification and the Lean column model, the listed boxes with the footprints the plane meets, outputs are tasted "
